@@ -33,6 +33,10 @@ import (
 func ParseQuery(q string) (pq *proto.Query, err error) {
 	p := newParser(q)
 
+	// The lexer goroutine blocks sending items the parser no longer wants (after an
+	// error, or after the query ended): drain it so that it always terminates.
+	defer p.lexer.drain()
+
 	defer p.recover(&err)
 
 	pq, err = p.parse()
@@ -361,6 +365,13 @@ func lex(input string) *lexer {
 func (l *lexer) run() {
 	for l.state = lexText; l.state != nil; {
 		l.state = l.state(l)
+	}
+
+	close(l.items)
+}
+
+func (l *lexer) drain() {
+	for range l.items {
 	}
 }
 
